@@ -14,6 +14,20 @@ tie    : harness/c19.cpp drives the three methods of the working tree (methods/<
          must agree bit for bit; the extracted fa_embed is replayed in exact rationals on small cases with
          fa_epsilon = 0; the binary64 transcription of the update is cross-checked against the extracted
          spe_step.  The extracted decision procedure spe_log_check runs on the implementation's own logs.
+ranges : every SPE / RP / FA case hands the library a RANGE of sample ids that need not be 0..n-1 (a sub-range of
+         the data set, a permuted order, offset / sparse ids, repeated ids); the callbacks are indexed by sample id.
+         The models (coq/Spe_Des_Model.v) are functions of (callback, range); every comparison is made against the
+         samples actually DESIGNATED by the range (theorems rp_row_is_projection_of_designated_sample,
+         fa_row_is_centred_designated_sample_times_loading, spe_distance_calls_designated_*): RP output = centred
+         designated samples x draws, FA output in the column space of the centred designated samples, the SPE
+         distance callback receives exactly (begin[a], begin[b]) for the position pairs of the iteration
+         (extracted spe_log_check_des on the implementation's own log).
+fa     : replay of the extracted never-stopping EM trajectory (fa_observe, exact rationals, fa_epsilon >= 0); the
+         convergence test fabs(newll - ll) < epsilon is evaluated on the exact trajectory (log as float oracle,
+         cases within 1e-9 of the threshold are skipped) and picks the round the implementation must have left at
+         (theorem fa_em_is_trajectory_cut_at_first_stop).
+polar  : the shipped gaussian_random() (-DC19_PLAIN) is replayed from the std::rand answers it consumed through the
+         extracted polar_fill: accepted attempts, x * sqrt(-2 ln s / s) / sqrt(D) per entry, number of answers used.
 tests  : (labelled measured tests, not theorems) scale-optimal normalised stress of the global strategy
          over seeds, neighbour-distance error of the local strategy, first four moments and lag-1 product
          of the shipped polar-method Gaussian (build -DC19_PLAIN).
@@ -36,6 +50,12 @@ TRUSTED = [
     "IEEE rounding: coordinates compared in binary64 with relative tolerance 1e-9 (tolerance stream); exact stream = indices, pairs, rational RP, bit-for-bit translation pairs",
     "extraction (ExtrOcamlBasic only) + OCaml 4.13.1 + coq/extract/c19_driver.ml (parsing/printing)",
     "harness/c19.cpp (embed_with<> replicates tapkee::embed's check/merge/ImplementationBase/validate/embed for one method); g++ ASan/UBSan/_GLIBCXX_ASSERTIONS",
+    "sample ids: harness callbacks look external ids up in a pool (unknown id -> exception); the check renames external ids to "
+    "pool rows for the model (a bijection) and compares against the samples designated by the range",
+    "FA with fa_epsilon > 0: log(det) evaluated in binary64 by the check on the exact trajectory (value oracle); rounds whose "
+    "|ll_t - ll_(t-1)| lies within 1e-9 of epsilon are not judged",
+    "polar method: sqrt / log evaluated in binary64 by the check on the exact accepted (x, radius); the Gaussian law of the "
+    "output is the classical theorem about the polar method given uniform std::rand, NOT proved here (moments measured)",
     "convergence of the stochastic iteration and the distribution of the Gaussian oracle are measured tests, not theorems",
 ]
 
@@ -67,20 +87,47 @@ def is_finite_rows(rows):
 
 
 # ----------------------------------------------------------------------------- harness I/O
+def norm_case(c):
+    """data set = pool of samples with external ids `names`; `range` = the ids handed to embed() (any list of names).
+    Sets cols (pool row of every position), X (the DESIGNATED samples, what every model is fed with) and N."""
+    if c.get("kind") not in ("SPE", "RP", "FA"):
+        return c
+    if "pool" not in c:
+        c["pool"] = [list(r) for r in c["X"]]
+    P = len(c["pool"])
+    if "names" not in c:
+        c["names"] = list(range(P))
+    if "range" not in c:
+        c["range"] = list(c["names"][:c.get("N", P)])
+        c.setdefault("rkind", "identity")
+    col = {nm: p for p, nm in enumerate(c["names"])}
+    c["cols"] = [col[r] for r in c["range"]]
+    c["X"] = [list(c["pool"][p]) for p in c["cols"]]
+    if not c.get("bad"):
+        c["N"] = len(c["range"])
+    return c
+
+
+def pool_text(c):
+    flat = " ".join(fhex(v) for row in c["pool"] for v in row)
+    return "%d %s %s\n%s\n" % (len(c["pool"]), " ".join(map(str, c["range"])), " ".join(map(str, c["names"])), flat)
+
+
 def case_text(c):
     k = c["kind"]
-    flat = " ".join(fhex(v) for row in c["X"] for v in row)
     if k == "SPE":
-        return "SPE %s %d %d %d %d %d %d %d %s %d %d %d %d %d %d\n%s\n" % (
-            c["id"], c["N"], c["D"], c["d"], 1 if c["global"] else 0, c["k"], c["nupd"], c["maxiter"],
-            fhex(c["tol"]), c["srand"], c["shseed"], c["useed"], c["umode"], c["nbm"], c["log"], flat)
+        return "SPE %s %d %d %d %d %d %d %d %s %d %d %d %d %d %d\n%s" % (
+            c["id"], len(c["range"]), c["D"], c["d"], 1 if c["global"] else 0, c["k"], c["nupd"], c["maxiter"],
+            fhex(c["tol"]), c["srand"], c["shseed"], c["useed"], c["umode"], c["nbm"], c["log"], pool_text(c))
     if k == "RP":
-        return "RP %s %d %d %d %d %d\n%s\n" % (c["id"], c["N"], c["D"], c["d"], c["gseed"], c["gmode"], flat)
+        return "RP %s %d %d %d %d %d\n%s" % (c["id"], len(c["range"]), c["D"], c["d"], c["gseed"], c["gmode"], pool_text(c))
     if k == "FA":
-        return "FA %s %d %d %d %d %s %d\n%s\n" % (c["id"], c["N"], c["D"], c["d"], c["maxiter"], fhex(c["eps"]),
-                                               c["srand"], flat)
+        return "FA %s %d %d %d %d %s %d\n%s" % (c["id"], len(c["range"]), c["D"], c["d"], c["maxiter"], fhex(c["eps"]),
+                                              c["srand"], pool_text(c))
     if k == "RPM":
         return "RPM %s %d %d %d %d\n" % (c["id"], c["D"], c["d"], c["srand"], c["reps"])
+    if k == "RPP":
+        return "RPP %s %d %d %d\n" % (c["id"], c["D"], c["d"], c["srand"])
     raise ValueError(k)
 
 
@@ -129,6 +176,14 @@ def parse_block(lines):
             r["MOM"] = [float(x) for x in w[1:]]
         elif t == "SHAPE":
             r["SHAPE"] = line
+        elif t == "RANDMAX":
+            r["RANDMAX"] = int(w[1])
+        elif t == "RAND":
+            r["RAND"] = [int(x) for x in w[1:]]
+        elif t == "NEXT":
+            r["NEXT"] = int(w[1])
+        elif t == "M":
+            r["M"] = parse_rows(w[1:])
         elif t.startswith("["):
             continue          # library log lines
         elif t == "PU":
@@ -227,14 +282,18 @@ def spe_model_text(c, res, old=False):
 
 
 def spe_log_text(c, res, nu, k):
+    """the implementation's own log for the extracted spe_log_check_des: shuffled array of POSITIONS (hook H1) and the
+    (id, id) arguments of the distance callback; ids are renamed external id -> pool row (a bijection), the R line
+    gives the pool row designated by every position of the range"""
     T = len(res["S"])
-    t = ["LOG %d %d %d %d %d" % (1 if c["global"] else 0, c["N"], nu, k, T)]
+    col = {nm: p for p, nm in enumerate(c["names"])}
+    t = ["LOGD %d %d %d %d %d" % (1 if c["global"] else 0, c["N"], nu, k, T), "R " + " ".join(map(str, c["cols"]))]
     if not c["global"]:
         for nb in res["NB"]:
             t.append("NB " + " ".join(map(str, nb)))
     for i in range(T):
         p = res["P"][i]
-        pairs = " ".join("%d:%d" % (p[j], p[j + 1]) for j in range(0, len(p) - 1, 2))
+        pairs = " ".join("%d:%d" % (col[p[j]], col[p[j + 1]]) for j in range(0, len(p) - 1, 2))
         t.append("L " + " ".join(map(str, res["S"][i])) + " ; " + pairs)
     return "\n".join(t) + "\n"
 
@@ -323,6 +382,52 @@ def gen_points(rng, N, D, span=8, den=8, distinct=True):
     return pts
 
 
+RANGE_KINDS = ["identity", "subrange", "permuted", "subset", "offset", "sparse", "repeated"]
+
+
+def gen_range(rng, N, repeats=True):
+    """-> (P, names, range, kind): the data set has P samples with external ids `names`; `range` (length N) is handed
+    to embed().  identity: 0..N-1 of an N-sample set; subrange: a contiguous slice not starting at 0 of a larger set;
+    permuted: all samples in another order; subset: some samples of a larger set in random order; offset: ids
+    base..base+N-1; sparse: arbitrary distinct ids; repeated: ids drawn with replacement."""
+    kinds = ["identity", "subrange", "subrange", "permuted", "permuted", "subset", "offset", "sparse"]
+    if repeats and N >= 3:
+        kinds += ["repeated"]
+    kind = rng.choice(kinds)
+    if kind == "identity":
+        return N, list(range(N)), list(range(N)), kind
+    if kind == "subrange":
+        lo, hi = rng.randint(1, max(1, N)), rng.randint(0, 3)
+        return lo + N + hi, list(range(lo + N + hi)), list(range(lo, lo + N)), kind
+    if kind == "permuted":
+        r = list(range(N))
+        while N >= 2 and r == list(range(N)):
+            rng.shuffle(r)
+        return N, list(range(N)), r, kind
+    if kind == "subset":
+        P = N + rng.randint(1, max(2, N // 2))
+        return P, list(range(P)), rng.sample(range(P), N), kind
+    if kind == "offset":
+        base = rng.choice([1, 7, 100, 1000])
+        return N, [base + i for i in range(N)], [base + i for i in range(N)], kind
+    if kind == "sparse":
+        P = N + rng.randint(0, 3)
+        names = rng.sample(range(3000), P)
+        return P, names, rng.sample(names, N), kind
+    P = max(2, N - rng.randint(1, max(1, N // 2)))
+    r = [rng.randrange(P) for _ in range(N)]
+    if len(set(r)) == N:
+        r[-1] = r[0]
+    return P, list(range(P)), r, kind
+
+
+def with_range(rng, c, points, repeats=True):
+    """points(P) -> P sample rows; attaches pool / names / range to the case and normalises it"""
+    P, names, rge, kind = gen_range(rng, c["N"], repeats)
+    c["pool"], c["names"], c["range"], c["rkind"] = points(P), names, rge, kind
+    return norm_case(c)
+
+
 def gen_spe(rng, cid, quick=True):
     glob = rng.random() < 0.5
     N = rng.choice([2, 3, 4, 5, 6, 7, 8, 9, 12, 16, 17, 24] if glob else [4, 5, 6, 7, 8, 9, 12, 16, 17, 24])
@@ -336,12 +441,13 @@ def gen_spe(rng, cid, quick=True):
     if umode == 3 and N > 8:
         k = rng.choice([4, 8])            # u = m/8: u*k hits the integer boundaries of floor exactly
     nbm = rng.choice([0, 1, 2])
-    return {"kind": "SPE", "id": cid, "N": N, "D": D, "d": d, "global": glob, "k": k, "nupd": nupd,
-            "maxiter": maxiter, "tol": rng.choice([2.0 ** -20, 2.0 ** -10, 1e-5, 0.5]),
-            "srand": rng.randrange(1 << 30), "shseed": rng.randrange(1 << 30), "useed": rng.randrange(1 << 30),
-            "umode": umode, "nbm": nbm, "log": 2,
-            "X": gen_points(rng, N, D, span=rng.choice([2, 8]), den=rng.choice([1, 4, 8]),
-                            distinct=(rng.random() < 0.85))}
+    c = {"kind": "SPE", "id": cid, "N": N, "D": D, "d": d, "global": glob, "k": k, "nupd": nupd,
+         "maxiter": maxiter, "tol": rng.choice([2.0 ** -20, 2.0 ** -10, 1e-5, 0.5]),
+         "srand": rng.randrange(1 << 30), "shseed": rng.randrange(1 << 30), "useed": rng.randrange(1 << 30),
+         "umode": umode, "nbm": nbm, "log": 2}
+    span, den, distinct = rng.choice([2, 8]), rng.choice([1, 4, 8]), (rng.random() < 0.85)
+    # repeated ids only with the global strategy (the neighbour search on coincident samples is C02's business)
+    return with_range(rng, c, lambda P: gen_points(rng, P, D, span=span, den=den, distinct=distinct), repeats=glob)
 
 
 def gen_spe_bad(rng, cid):
@@ -368,10 +474,11 @@ def gen_spe_bad(rng, cid):
 def gen_spe_stress(rng, cid, glob):
     N = rng.choice([8, 12, 16, 24])
     D = rng.choice([1, 2, 3])
-    return {"kind": "SPE", "id": cid, "N": N, "D": D, "d": D, "global": glob, "k": 0 if glob else rng.choice([3, 4, 5]),
-            "nupd": max(1, rng.choice([N // 4, N // 2])), "maxiter": 2000 if glob else 6000, "tol": 1e-5,
-            "srand": rng.randrange(1 << 30), "shseed": rng.randrange(1 << 30), "useed": rng.randrange(1 << 30),
-            "umode": 0, "nbm": 0, "log": 0, "measure": True, "X": gen_points(rng, N, D, span=8, den=8)}
+    c = {"kind": "SPE", "id": cid, "N": N, "D": D, "d": D, "global": glob, "k": 0 if glob else rng.choice([3, 4, 5]),
+         "nupd": max(1, rng.choice([N // 4, N // 2])), "maxiter": 2000 if glob else 6000, "tol": 1e-5,
+         "srand": rng.randrange(1 << 30), "shseed": rng.randrange(1 << 30), "useed": rng.randrange(1 << 30),
+         "umode": 0, "nbm": 0, "log": 0, "measure": True}
+    return with_range(rng, c, lambda P: gen_points(rng, P, D, span=8, den=8), repeats=False)
 
 
 def gen_rp(rng, cid, exact):
@@ -379,10 +486,10 @@ def gen_rp(rng, cid, exact):
     D = rng.choice([1, 4, 4, 16]) if exact else rng.choice([1, 2, 3, 5, 6, 9, 12])
     d = rng.choice([x for x in (1, 2, 3, 5) if x < max(N, 2)] or [1])
     c = {"kind": "RP", "id": cid, "N": N, "D": D, "d": d, "gseed": rng.randrange(1 << 30),
-         "gmode": 0 if exact else 1, "exact": exact,
-         "X": gen_points(rng, N, D, span=rng.choice([4, 64]), den=8, distinct=False)}
+         "gmode": 0 if exact else 1, "exact": exact}
     c["shift"] = [dyad(rng, -16, 16, 4) for _ in range(D)]
-    return c
+    span = rng.choice([4, 64])
+    return with_range(rng, c, lambda P: gen_points(rng, P, D, span=span, den=8, distinct=False))
 
 
 def gen_fa(rng, cid, exact):
@@ -390,26 +497,26 @@ def gen_fa(rng, cid, exact):
     D = rng.choice([1, 2, 3, 4])
     d = rng.choice([x for x in (1, 2, 3) if x < N])
     c = {"kind": "FA", "id": cid, "N": N, "D": D, "d": d, "maxiter": rng.choice([0, 1, 2, 5, 20]),
-         "eps": rng.choice([0.0, 2.0 ** -10, 1e-5]), "srand": rng.randrange(1 << 30), "exact": exact,
-         "X": gen_points(rng, N, D, span=8, den=8, distinct=True)}
+         "eps": rng.choice([0.0, 2.0 ** -10, 1e-5]), "srand": rng.randrange(1 << 30), "exact": exact}
     c["shift"] = [dyad(rng, -16, 16, 4) for _ in range(D)]
-    return c
+    return with_range(rng, c, lambda P: gen_points(rng, P, D, span=8, den=8, distinct=True))
 
 
-def gen_fa_replay(rng, cid, N, D, d, T):
-    """fa_epsilon = 0: the loop runs exactly T rounds and never looks at the log-likelihood, so the extracted
-    fa_embed (inverse oracle = exact Gauss-Jordan, contract re-checked on every call) can be replayed"""
-    c = {"kind": "FA", "id": cid, "N": N, "D": D, "d": d, "maxiter": T, "eps": 0.0, "srand": rng.randrange(1 << 30),
-         "exact": True, "replay_model": True, "X": gen_points(rng, N, D, span=8, den=8, distinct=True)}
+def gen_fa_replay(rng, cid, N, D, d, T, eps=0.0):
+    """the extracted never-stopping trajectory fa_observe (inverse oracle = exact Gauss-Jordan, contract re-checked on
+    every call) is replayed for T rounds; with fa_epsilon = 0 the loop runs exactly T rounds, with fa_epsilon > 0 the
+    check evaluates the convergence test on the exact trajectory to find the round the loop is left at"""
+    c = {"kind": "FA", "id": cid, "N": N, "D": D, "d": d, "maxiter": T, "eps": eps, "srand": rng.randrange(1 << 30),
+         "exact": True, "replay_model": True}
     c["shift"] = [dyad(rng, -16, 16, 4) for _ in range(D)]
-    return c
+    return with_range(rng, c, lambda P: gen_points(rng, P, D, span=8, den=8, distinct=True))
 
 
 def shifted(c):
     s = dict(c)
     s["id"] = c["id"] + "t"
-    s["X"] = [[v + t for v, t in zip(row, c["shift"])] for row in c["X"]]
-    return s
+    s["pool"] = [[v + t for v, t in zip(row, c["shift"])] for row in c["pool"]]
+    return norm_case(s)
 
 
 # ----------------------------------------------------------------------------- evaluation
@@ -421,13 +528,14 @@ class Stats:
         self.evals = 0
         self.measured = {"global_stress": [], "local_neighbour_error": [], "moments": []}
         self.step_budget = 120
+        self.worst_fa = 0.0
 
     def count(self, key):
         self.hist[key] = self.hist.get(key, 0) + 1
 
 
 def public(c):
-    return {k: v for k, v in c.items() if k not in ("measure",)}
+    return {k: v for k, v in c.items() if k not in ("measure", "cols")}
 
 
 def eval_spe(ctx, exe, mexe, cases, st):
@@ -439,6 +547,7 @@ def eval_spe(ctx, exe, mexe, cases, st):
         st.evals += 1
         st.count("SPE/" + ("global" if c["global"] else "local") + ("/bad" if c.get("bad") else "")
                  + ("/measure" if c.get("measure") else ""))
+        st.count("range/" + str(c.get("rkind", "identity")))
         if r["crashed"] or r["status"] in ("GARBAGE", None):
             ctx.violation(public(c), "SPE run of the real library aborts / hangs / prints garbage: " + str(r.get("detail"))[:600])
             continue
@@ -482,6 +591,12 @@ def eval_spe(ctx, exe, mexe, cases, st):
         T = len(r["S"])
         ok_shape = (T == c["maxiter"] and len(r["P"]) == T and len(r["F"]) == T and len(r["U"]) == T
                     and (c["global"] or len(r["NB"]) == N))
+        known = set(c["names"])
+        stray = [v for p in r["P"] for v in p if v not in known]
+        if stray:
+            ctx.violation(public(c), "SPE called the distance callback with sample id %d, which is not in the data set "
+                                     "(ids %s...)" % (stray[0], c["names"][:8]))
+            ok_shape = None
         meta.append((nu, k, T, ok_shape))
         if ok_shape:
             text_spec.append(spe_log_text(c, r, nu, k))
@@ -492,6 +607,8 @@ def eval_spe(ctx, exe, mexe, cases, st):
     step_jobs = []
     for (c, r), (nu, k, T, ok_shape) in zip(todo, meta):
         pc = public(c)
+        if ok_shape is None:
+            continue
         if not ok_shape:
             ctx.violation(pc, "SPE ran %d shuffles for max_iteration=%d (or the log is incomplete)" % (T, c["maxiter"]))
             continue
@@ -504,8 +621,10 @@ def eval_spe(ctx, exe, mexe, cases, st):
             continue
         if not sb or sb[0] != "SPEC ok":
             t = sb[0] if sb else "no answer"
-            ctx.violation(pc, "index bookkeeping violates the specification (%s strategy): %s; iteration log S=%s P=%s" % (
-                "global" if c["global"] else "local", t,
+            ctx.violation(pc, "index bookkeeping violates the specification (%s strategy; the distance callback of an "
+                              "iteration must receive (begin[a], begin[b]) for its position pairs (a, b); range kind %s, "
+                              "range %s): %s; iteration log positions S=%s callback ids P=%s" % (
+                "global" if c["global"] else "local", c.get("rkind"), c["range"][:12], t,
                 r["S"][int(t.split()[-1])] if t.startswith("SPEC fail") else "?",
                 r["P"][int(t.split()[-1])] if t.startswith("SPEC fail") else "?"))
             continue
@@ -513,7 +632,8 @@ def eval_spe(ctx, exe, mexe, cases, st):
         if not c["global"] and c["umode"] in (1, 2) and k >= 1:
             want = k - 1 if c["umode"] == 1 else 0
             bad = None
-            for t_i, p in enumerate(r["P"]):
+            pos_of = {nm: i for i, nm in enumerate(c["range"])}
+            for t_i, p in enumerate([[pos_of.get(v, -1) for v in q] for q in r["P"]]):
                 for j in range(0, len(p) - 1, 2):
                     if p[j + 1] != r["NB"][p[j]][want]:
                         bad = (t_i, p[j], p[j + 1], r["NB"][p[j]])
@@ -535,11 +655,12 @@ def eval_spe(ctx, exe, mexe, cases, st):
         for t_i in range(T):
             p = r["P"][t_i]
             ipairs = [(p[j], p[j + 1]) for j in range(0, len(p) - 1, 2)]
+            mpairs = [(c["range"][a], c["range"][b]) for a, b in outs[t_i]["pairs"]]
             if outs[t_i]["perm"] != r["S"][t_i]:
                 diff = "iteration %d: shuffled array model %s vs implementation %s" % (t_i, outs[t_i]["perm"], r["S"][t_i])
                 break
-            if outs[t_i]["pairs"] != ipairs:
-                diff = "iteration %d: updated pairs model %s vs implementation %s" % (t_i, outs[t_i]["pairs"], ipairs)
+            if mpairs != ipairs:
+                diff = "iteration %d: distance callback arguments (sample ids) model %s vs implementation %s" % (t_i, mpairs, ipairs)
                 break
         if diff:
             ctx.mismatch(pc, diff)
@@ -632,6 +753,11 @@ def eval_pairs(ctx, exe, mexe, cases, st):
             ctx.violation(pc, "%s run of the real library aborts / hangs / prints garbage: %s" % (
                 c["kind"], str(crashed[0].get("detail"))[:600]))
             continue
+        stray = [r for r in (r0, r1) if "C19 callback asked for sample id" in str(r.get("what", ""))]
+        if stray:
+            ctx.violation(pc, "%s asked a callback for a sample that is not in the range handed to embed() (range kind %s, "
+                              "range %s): %s" % (c["kind"], c.get("rkind"), c["range"][:12], stray[0]["what"][:200]))
+            continue
         if r0["status"] != "OK" or r1["status"] != "OK":
             if r0["status"] != r1["status"]:
                 ctx.violation(pc, "%s accepts the data but rejects the translated data (or vice versa): %s / %s" % (
@@ -673,10 +799,21 @@ def eval_pairs(ctx, exe, mexe, cases, st):
                 a = sum(abs(row[col]) for row in Y0)
                 if abs(s) > 1e-9 * (a + 1e-300) * max(1, N) and abs(s) > 1e-12:
                     ctx.violation(pc, "%s output column %d does not sum to zero (%.3g, column 1-norm %.3g): the output is "
-                                      "not the CENTRED samples times a matrix" % (c["kind"], col, s, a))
+                                      "not the CENTRED samples (the samples designated by the range, kind %s) times a matrix" % (
+                                          c["kind"], col, s, a, c.get("rkind")))
                     break
             else:
                 st.nontrivial.add(json.dumps([c["kind"], N, c["D"], d, c.get("gseed", c.get("srand"))]))
+        if c["kind"] == "FA" and finite and not ctx_has(ctx, pc):
+            # spec: the output is (centred designated samples) x (ONE loading matrix): every column of Y lies in the
+            # column space of the centred designated data matrix (exact left null space, theorem fa_row_designated)
+            wit = fa_span_violation(c, Y0)
+            st.count("FA/span-check" + ("/vacuous" if wit == "vacuous" else ""))
+            if wit not in (None, "vacuous"):
+                ctx.violation(pc, "FA output is not the centred designated samples times a loading matrix (range kind %s, "
+                                  "range %s): column %d of the embedding has a component %.3g (relative) outside the column "
+                                  "space of the centred samples x_begin[i] - mean" % (c.get("rkind"), c["range"][:12], wit[0], wit[1]))
+                continue
         if c["kind"] == "RP":
             G = r0.get("G", [])
             D = c["D"]
@@ -694,8 +831,10 @@ def eval_pairs(ctx, exe, mexe, cases, st):
                 worst = max(abs(f * z - y) for rz, ry in zip(Z, Y0) for z, y in zip(rz, ry))
                 zmax = max(abs(z) for row in Z for z in row)
                 if f <= 0 or worst > 1e-9 * abs(f) * zmax + 1e-300:
-                    ctx.violation(pc, "random projection output is not the centred samples times the matrix of the logged "
-                                      "oracle draws with one common positive scale (best scale %.6g, residual %.3g)" % (f, worst))
+                    ctx.violation(pc, "random projection output is not the centred samples DESIGNATED BY THE RANGE (kind %s, range "
+                                      "%s) times the matrix of the logged oracle draws with one common positive scale (best "
+                                      "scale %.6g, residual %.3g): row i must be P^T (x_begin[i] - mean)" % (
+                                          c.get("rkind"), c["range"][:12], f, worst))
                     continue
                 if not close(f, 1.0 / math.sqrt(D), 1e-9):
                     ctx.mismatch(pc, "random projection scale is %.17g, model has 1/sqrt(D) = %.17g" % (f, 1.0 / math.sqrt(D)))
@@ -712,8 +851,9 @@ def eval_pairs(ctx, exe, mexe, cases, st):
     if rp_exact:
         text = []
         for c, r0, s in rp_exact:
-            t = ["RP %d 1 %d %d %d" % (s, c["N"], c["D"], c["d"]), "G " + " ".join(frac_str(g) for g in r0["G"])]
-            for row in c["X"]:
+            t = ["RPD %d 1 %d %d %d %d" % (s, c["N"], c["D"], c["d"], len(c["pool"])),
+                 "G " + " ".join(frac_str(g) for g in r0["G"]), "R " + " ".join(map(str, c["cols"]))]
+            for row in c["pool"]:
                 t.append("X " + " ".join(frac_str(v) for v in row))
             text.append("\n".join(t) + "\n")
         blocks = model_blocks(ctx, mexe, "".join(text), len(text))
@@ -726,22 +866,24 @@ def eval_pairs(ctx, exe, mexe, cases, st):
             except (ValueError, ZeroDivisionError):
                 same = False
             if not same:
-                ctx.mismatch(public(c), "random projection (exact stream): extracted model and implementation differ: "
-                                        "model %s implementation %s" % (b[:2], r0["Y"][:2]))
+                ctx.mismatch(public(c), "random projection (exact stream): extracted rp_embed_des (range kind %s) and implementation "
+                                        "differ: model %s implementation %s" % (c.get("rkind"), b[:2], r0["Y"][:2]))
 
 
     if fa_replay:
         text = []
         for c, r0 in fa_replay:
-            t = ["FA %d %d %d %d" % (c["maxiter"], c["N"], c["D"], c["d"])]
+            rounds = c["maxiter"]
+            t = ["FAT %d %d %d %d %d %s" % (rounds, c["N"], c["D"], c["d"], len(c["pool"]), frac_str(c["eps"]))]
             for row in r0["A0"]:
                 t.append("A " + " ".join(frac_str(v) for v in row))
-            for row in c["X"]:
+            t.append("R " + " ".join(map(str, c["cols"])))
+            for row in c["pool"]:
                 t.append("X " + " ".join(frac_str(v) for v in row))
             text.append("\n".join(t) + "\n")
         blocks = model_blocks(ctx, mexe, "".join(text), len(text))
         for (c, r0), b in zip(fa_replay, blocks):
-            st.count("FA/model-replay")
+            st.count("FA/model-replay" + ("/eps>0" if c["eps"] > 0 else ""))
             orc = [line for line in b if line.startswith("ORACLE")]
             w = orc[0].split() if orc else []
             if len(w) != 7 or int(w[4]) != 0:
@@ -751,16 +893,145 @@ def eval_pairs(ctx, exe, mexe, cases, st):
                 st.count("FA/model-replay-singular")      # a singular matrix was inverted: nothing to compare
                 continue
             try:
-                rows = [[float(Fraction(x)) for x in line.split()[1:]] for line in b if line.startswith("ROW")]
-                worst = max(abs(y - m) / max(1.0, abs(y), abs(m)) for ry, rm in zip(r0["Y"], rows) for y, m in zip(ry, rm))
-                same = len(rows) == c["N"] and all(len(rw) == c["d"] for rw in rows) and worst <= 1e-9
-            except (ValueError, ZeroDivisionError):
-                same, worst = False, float("nan")
+                want, note = fa_expected(c, r0, b)
+            except (ValueError, ZeroDivisionError, IndexError) as ex:
+                ctx.mismatch(public(c), "factor analysis replay: unreadable model answer (%s)" % ex)
+                continue
+            if want is None:
+                st.count("FA/model-replay-undecided:" + note)
+                continue
+            st.count("FA/model-replay-left-at-round-%s" % note)
+            worst = max((abs(y - m) / max(1.0, abs(y), abs(m)) for ry, rm in zip(r0["Y"], want) for y, m in zip(ry, rm)),
+                        default=0.0)
+            same = len(want) == c["N"] and all(len(rw) == c["d"] for rw in want) and worst <= (1e-9 if c["eps"] == 0 else 1e-7)
             if not same:
-                ctx.mismatch(public(c), "factor analysis: extracted fa_embed (exact rationals, %s oracle calls) and the "
-                                        "implementation differ by %.3g relative" % (w[2], worst))
+                ctx.mismatch(public(c), "factor analysis: extracted EM trajectory (exact rationals, %s oracle calls, loop left "
+                                        "after round %s of %d, fa_epsilon %g, range kind %s) and the implementation differ by "
+                                        "%.3g relative" % (w[2], note, c["maxiter"], c["eps"], c.get("rkind"), worst))
             else:
-                st.nontrivial.add(json.dumps(["FA-replay", c["N"], c["D"], c["d"], c["maxiter"], c["srand"]]))
+                st.worst_fa = max(st.worst_fa, worst)
+                st.nontrivial.add(json.dumps(["FA-replay", c["N"], c["D"], c["d"], c["maxiter"], c["eps"], c["srand"]]))
+
+
+def ctx_has(ctx, pc):
+    """a violation for this very case was recorded already"""
+    return any(cs is pc for cs, _ in ctx._violations)
+
+
+def fa_span_violation(c, Y):
+    """None if every column of Y is a combination of the columns of the centred designated data matrix Xc (N x D);
+    'vacuous' if Xc has rank N - 0 (no constraint beyond centring was checkable); else (column, relative size)"""
+    N, D = c["N"], c["D"]
+    X = [[Fraction(v) for v in row] for row in c["X"]]
+    mean = [sum(row[t] for row in X) / N for t in range(D)]
+    Xc = [[row[t] - mean[t] for t in range(D)] for row in X]
+    # left null space of Xc: w with sum_i w_i Xc[i][t] = 0 for all t  (null space of the D x N matrix Xc^T)
+    A = [[Xc[i][t] for i in range(N)] for t in range(D)]
+    piv_cols, rows = [], []
+    r = 0
+    for col in range(N):
+        pr = next((i for i in range(r, D) if A[i][col] != 0), None)
+        if pr is None:
+            continue
+        A[r], A[pr] = A[pr], A[r]
+        pv = A[r][col]
+        A[r] = [v / pv for v in A[r]]
+        for i in range(D):
+            if i != r and A[i][col] != 0:
+                f = A[i][col]
+                A[i] = [a - f * b for a, b in zip(A[i], A[r])]
+        piv_cols.append(col)
+        r += 1
+        if r == D:
+            break
+    free = [j for j in range(N) if j not in piv_cols]
+    basis = []
+    for fcol in free:
+        w = [Fraction(0)] * N
+        w[fcol] = Fraction(1)
+        for ri, pc_ in enumerate(piv_cols):
+            w[pc_] = -A[ri][fcol]
+        basis.append([float(x) for x in w])
+    if len(basis) <= 1:
+        return "vacuous"          # only the all-ones vector (centring), checked separately
+    ymax = max([abs(v) for row in Y for v in row] + [1e-300])
+    if not math.isfinite(ymax) or ymax > 1e8:
+        return "vacuous"
+    for col in range(c["d"]):
+        for w in basis:
+            dot = sum(wi * row[col] for wi, row in zip(w, Y))
+            size = sum(abs(wi) for wi in w) * ymax
+            if abs(dot) > 1e-6 * size:
+                return (col, abs(dot) / size)
+    return None
+
+
+def frac_det(M):
+    """exact determinant (Fractions) by elimination"""
+    M = [list(r) for r in M]
+    n = len(M)
+    det = Fraction(1)
+    for i in range(n):
+        piv = next((r for r in range(i, n) if M[r][i] != 0), None)
+        if piv is None:
+            return Fraction(0)
+        if piv != i:
+            M[i], M[piv] = M[piv], M[i]
+            det = -det
+        det *= M[i][i]
+        for r in range(i + 1, n):
+            f = M[r][i] / M[i][i]
+            if f:
+                M[r] = [a - f * b for a, b in zip(M[r], M[i])]
+    return det
+
+
+def fa_expected(c, r0, block):
+    """the embedding routines/fa.hpp must return according to the exact trajectory: X^T A_t for the round t at which
+    `if ((iter > 1) && (fabs(newll - ll) < epsilon)) break;` first fires (t = max_iteration if never; X^T A0 for 0 rounds).
+    -> (rows, "t") or (None, reason) when the test is too close to the threshold to be decided in binary64"""
+    rounds = []
+    cur = None
+    for line in block:
+        w = line.split()
+        if not w:
+            continue
+        if w[0] == "T":
+            cur = {"rows": [], "ic": [], "q": None}
+            rounds.append(cur)
+        elif w[0] == "ROW":
+            cur["rows"].append([Fraction(x) for x in w[1:]])
+        elif w[0] == "IC":
+            cur["ic"].append([Fraction(x) for x in w[1:]])
+        elif w[0] == "Q":
+            cur["q"] = Fraction(w[1])
+    if len(rounds) != c["maxiter"]:
+        raise ValueError("trajectory has %d rounds, expected %d" % (len(rounds), c["maxiter"]))
+    if not rounds:
+        # zero rounds: X^T A0 with the centred designated samples
+        N, D = c["N"], c["D"]
+        mean = [sum(Fraction(row[t]) for row in c["X"]) / N for t in range(D)]
+        rows = [[float(sum((Fraction(row[t]) - mean[t]) * Fraction(r0["A0"][t][col]) for t in range(D)))
+                 for col in range(c["d"])] for row in c["X"]]
+        return rows, "0"
+    eps = c["eps"]
+    ll_prev = 0.0
+    left = len(rounds)
+    for t, rd in enumerate(rounds, start=1):
+        det = frac_det(rd["ic"])
+        try:
+            ll = 0.5 * ((math.log(float(det)) if det > 0 else float("nan")) - float(rd["q"]))
+        except (ValueError, OverflowError):
+            ll = float("nan")
+        if t > 1:
+            gap = abs(ll - ll_prev)
+            if gap == gap and abs(gap - eps) <= 1e-9 * (1.0 + eps) and eps > 0:
+                return None, "threshold"
+            if gap < eps:
+                left = t
+                break
+        ll_prev = ll
+    return [[float(x) for x in row] for row in rounds[left - 1]["rows"]], str(left)
 
 
 def eval_moments(ctx, exe_plain, rng, st, reps):
@@ -790,6 +1061,67 @@ def eval_moments(ctx, exe_plain, rng, st, reps):
             ctx.violation(pc, "MEASURED TEST: sqrt(D) * entries of gaussian_projection_matrix are not zero-mean / unit-variance / "
                               "uncorrelated Gaussian within 6 sigma: n=%d mean=%.4g var=%.4g m3=%.4g m4=%.4g lag1=%.4g" % (
                                   n, m1, m2, m3, m4, lag))
+
+
+def eval_polar(ctx, exe_plain, mexe, rng, st, shapes):
+    """replay of the SHIPPED gaussian_random() (polar method on std::rand): the harness (-DC19_PLAIN) prints the std::rand
+    answers gaussian_projection_matrix(D, d) consumed and the matrix; the extracted polar_fill turns the answers into the
+    accepted (x, radius) of every entry (exact rationals); entry = x * sqrt(-2 ln radius / radius) / sqrt(D)"""
+    cases = [{"kind": "RPP", "id": "p%d" % i, "D": sh[0], "d": sh[1],
+              "srand": (sh[2] if len(sh) > 2 else rng.randrange(1 << 30)), "X": []} for i, sh in enumerate(shapes)]
+    res = run_impl(ctx, exe_plain, cases)
+    jobs = []
+    for c, r in zip(cases, res):
+        st.evals += 1
+        st.count("RPP")
+        if r["status"] == "SKIP":
+            continue
+        if r["status"] in ("BADINPUT", "BADCMD"):
+            ctx.note("harness refused the polar case %s (check bug, not a verdict)" % c["id"])
+            continue
+        if r["crashed"] or r["status"] == "GARBAGE" or "M" not in r or "RAND" not in r or "RANDMAX" not in r:
+            ctx.violation(public(c), "gaussian_projection_matrix aborts / prints garbage: " + str(r.get("detail"))[:400])
+            continue
+        jobs.append((c, r))
+    if not jobs:
+        return
+    text = "".join("POLAR %d %d\nRS %s\n" % (r["RANDMAX"] + 1, c["D"] * c["d"], " ".join(map(str, r["RAND"]))) for c, r in jobs)
+    blocks = model_blocks(ctx, mexe, text, len(jobs))
+    for (c, r), b in zip(jobs, blocks):
+        pc = public(c)
+        xs = [line.split()[1:] for line in b if line.startswith("XS")]
+        used = [int(line.split()[1]) for line in b if line.startswith("USED")]
+        flat = [v for row in r["M"] for v in row]
+        if not used or len(xs) != c["D"] * c["d"]:
+            st.count("RPP/stream-too-short")
+            continue
+        if len(flat) != len(xs):
+            ctx.violation(pc, "gaussian_projection_matrix(%d, %d) returned %d entries" % (c["D"], c["d"], len(flat)))
+            continue
+        bad = None
+        for e, ((xq, sq), got) in enumerate(zip(xs, flat)):
+            x, sr = Fraction(xq), Fraction(sq)
+            if not (0 < sr < 1):
+                bad = "model accepted radius %s outside (0, 1)" % sr
+                break
+            if 1 - sr < Fraction(1, 1 << 40):
+                st.count("RPP/radius-at-rounding-boundary")
+                continue
+            sf = float(sr)
+            want = float(x) * math.sqrt(-2.0 * math.log(sf) / sf) / math.sqrt(c["D"])
+            # the implementation's radius is rounded (relative 2^-52): propagate through the formula
+            sp = sf * (1 + 4e-16)
+            wiggle = abs(float(x) * math.sqrt(-2.0 * math.log(sp) / sp) / math.sqrt(c["D"]) - want)
+            if not abs(got - want) <= 1e-12 * max(1.0, abs(want)) + 4 * wiggle:
+                bad = "entry %d is %.17g, the polar method on the logged std::rand answers gives %.17g" % (e, got, want)
+                break
+        if bad is None and (used[0] >= len(r["RAND"]) or r["RAND"][used[0]] != r["NEXT"]):
+            bad = "the model consumed %d std::rand answers, the implementation a different number" % used[0]
+        if bad:
+            ctx.mismatch(pc, "shipped gaussian_random (polar method) does not match its model: " + bad)
+        else:
+            st.hist["RPP/entries-replayed"] = st.hist.get("RPP/entries-replayed", 0) + len(flat)
+            st.nontrivial.add(json.dumps(["RPP", c["D"], c["d"], c["srand"]]))
 
 
 def judge_measured(ctx, st):
@@ -829,7 +1161,7 @@ def corpus_cases(ctx):
         if isinstance(c, dict) and c.get("kind") in ("SPE", "RP", "FA"):
             c = dict(c)
             c["id"] = "k" + name.split(".")[0].replace(" ", "_")
-            out.append(c)
+            out.append(norm_case(c))
     return out
 
 
@@ -877,18 +1209,24 @@ def run(ctx):
     mexe = box["mexe"]
     st = Stats()
     ctx.note("phase: Coq + extraction + both C++ builds done at %.1f s" % ctx.elapsed())
+    # fa_replay shapes: (N, D, d, rounds, fa_epsilon); epsilon > 0 exercises `+ epsilon` in sig and the convergence test
+    fa_quick = [(4, 2, 1, 1, 0.0), (8, 3, 2, 1, 0.0), (4, 1, 1, 1, 0.0), (8, 2, 1, 1, 0.0), (4, 2, 1, 2, 0.0), (4, 1, 1, 2, 0.0),
+                (4, 2, 1, 0, 0.0), (8, 2, 1, 2, 0.25), (4, 2, 1, 3, 1.0), (4, 1, 1, 3, 4.0), (8, 2, 1, 3, 0.5), (4, 2, 1, 2, 0.0625),
+                (4, 1, 1, 3, 0.125), (8, 3, 1, 2, 2.0)]
     budget = ({"spe": 260, "bad": 30, "gstress": 40, "lstress": 30, "rp": 60, "fa": 45, "reps": 120000,
-               "fa_replay": [(4, 2, 1, 1), (8, 3, 2, 1), (4, 1, 1, 1), (8, 2, 1, 1), (4, 2, 1, 2), (2, 1, 1, 2)]} if quick else
+               "fa_replay": fa_quick, "polar": [(4, 3), (9, 2), (2, 5)]} if quick else
               {"spe": 3000, "bad": 200, "gstress": 300, "lstress": 200, "rp": 600, "fa": 400, "reps": 2000000,
-               "fa_replay": [(4, 2, 1, 1), (8, 3, 2, 1), (4, 1, 1, 1), (8, 2, 1, 1), (4, 2, 1, 2), (2, 1, 1, 2),
-                             (16, 4, 3, 1), (8, 3, 1, 1), (4, 3, 2, 1), (4, 2, 1, 3), (8, 2, 1, 2), (16, 2, 1, 1)]})
+               "fa_replay": fa_quick * 3 + [(16, 4, 3, 1, 0.0), (8, 3, 1, 1, 0.0), (4, 3, 2, 1, 0.0), (4, 2, 1, 3, 0.0), (8, 2, 1, 2, 0.0),
+                                            (16, 2, 1, 1, 0.0), (8, 2, 1, 3, 0.03125), (4, 2, 2, 2, 1.0), (8, 1, 1, 4, 0.5)],
+               "polar": [(4, 3), (9, 2), (2, 5), (16, 4), (1, 1), (7, 7), (32, 2), (3, 16)]})
     spe, bad, meas, pairs = generate(ctx, rng, budget)
     corp = corpus_cases(ctx)
     st.hist["corpus"] = len(corp)
     eval_spe(ctx, exe, mexe, [c for c in corp if c["kind"] == "SPE"] + spe + bad, st)
     ctx.note("phase: SPE index/coordinate cases done at %.1f s" % ctx.elapsed())
     eval_pairs(ctx, exe, mexe, [c for c in corp if c["kind"] in ("RP", "FA")] + pairs, st)
-    ctx.note("phase: RP/FA pairs and replays done at %.1f s" % ctx.elapsed())
+    eval_polar(ctx, exe_plain, mexe, rng, st, budget["polar"])
+    ctx.note("phase: RP/FA pairs, FA trajectory replays and the polar-method replay done at %.1f s" % ctx.elapsed())
     if not ctx.has_violation():       # the measured tests cannot change a verdict that exists already
         eval_spe(ctx, exe, mexe, meas, st)
         eval_moments(ctx, exe_plain, rng, st, budget["reps"])
@@ -925,12 +1263,13 @@ def run(ctx):
 
 
 def replay(ctx, case):
-    exe, exe_plain = build_all(ctx, want_plain=(case.get("kind") == "RPM"))
+    exe, exe_plain = build_all(ctx, want_plain=(case.get("kind") in ("RPM", "RPP")))
     mexe = ctx.extract()
     st = Stats()
     c = dict(case)
     c.setdefault("id", "replay")
     kind = c.get("kind")
+    c = norm_case(c)
     if kind == "SPE":
         c.setdefault("log", 2)
         eval_spe(ctx, exe, mexe, [c], st)
@@ -942,6 +1281,8 @@ def replay(ctx, case):
         c.setdefault("exact", False)
         c.setdefault("shift", [0.0] * c["D"])
         eval_pairs(ctx, exe, mexe, [c], st)
+    elif kind == "RPP":
+        eval_polar(ctx, exe_plain, mexe, ctx.rng, st, [(c["D"], c["d"], c.get("srand", 1))])
     elif kind == "RPM":
         res = run_impl(ctx, exe_plain, [c])
         print(res[0])
